@@ -509,9 +509,229 @@ Proof.
     unfold OR1. apply or2_l; [exact E | apply (include_fails2 p kclass _ (15 + z) Wc Bd)].
 Qed.
 
-(* ---- where a run of declarations stops: at the end of the text, or at the closing brace of a namespace ---- *)
 Definition lbrace : chars := ["{"%char].
 Definition rbrace : chars := ["}"%char].
+
+(* ---- enumerations `enum Name { A , B } ;` ----
+   The parse tree does not record which of `enum`, `enum class`, `enum struct` was written; the printer writes `enum`.
+   The two-word keywords are tried on the same text: they fail unless the NAME is exactly `class` / `struct`. *)
+Definition kenum : chars := chars_of "enum".
+
+Lemma two_word_fails : forall p (w2 : string) n r, word n -> boundary r -> n <> chars_of w2 -> ~ In " "%char (chars_of w2) ->
+  run_term (TKw ("enum " ++ w2)) {| pk := p; rest := sp kenum (sp n r) |} = Fail.
+Proof.
+  intros p w2 n r [Hne Hn] Hr Hd Hb. unfold run_term. cbn [pre_term].
+  change (sp kenum (sp n r)) with (sp ("e"%char :: chars_of "num") (sp n r)).
+  rewrite (pre_sp p "e"%char (chars_of "num") (sp n r) eq_refl). cbn [rest pk].
+  change (chars_of ("enum " ++ w2)) with (chars_of "enum" ++ " "%char :: chars_of w2).
+  change (("e"%char :: chars_of "num") ++ sp n r) with (chars_of "enum" ++ " "%char :: n ++ r).
+  rewrite prefix_app, prefix_self. cbn [prefix]. change (ceq " " " ") with true. cbn iota.
+  destruct (prefix (chars_of w2) (n ++ r)) as [x|] eqn:P; [|reflexivity].
+  destruct (prefix_word (chars_of w2) n r x Hr Hn (safe_nospace _ _ Hb) P) as [n2 [E1 E2]]. subst x.
+  destruct n2 as [|d n2]; [exfalso; apply Hd; rewrite E1, app_nil_r; reflexivity|].
+  cbn [app negb andb].
+  assert (Hd2 : is_kwchar d = true).
+  { rewrite forallb_forall in Hn. apply alnum_kw. apply Hn. rewrite E1. apply in_or_app. right. left. reflexivity. }
+  rewrite Hd2. reflexivity.
+Qed.
+
+Definition enum_toks (name : string) (items : list string) : list chars :=
+  [kenum; chars_of name; lbrace] ++ sep_toks (map (fun x => [chars_of x]) items) ++ [rbrace; semi].
+Definition enumerator_value (x : chars) : value := VNode "Enumerator" [([], VStr (string_of x))].
+Definition enum_value (name : chars) (items : list chars) : value :=
+  VNode "Enum" ([([], VStr "enum"); (["name"%string], VStr (string_of name))] ++
+                map (fun x => (["enumerators"; "enumerator"]%string, enumerator_value x)) items).
+
+Definition COMMA_ENUMERATOR : gexpr := GAnd [GSup (GTerm (TLit ",")); GName "enumerator" (GRef "Enumerator")].
+
+Lemma enumerator_ok : forall f p x r, is_ident x = true -> boundary r ->
+  exists p', interp g (3 + f) (GRef "Enumerator") {| pk := p; rest := sp x r |} = Match [([], enumerator_value x)] {| pk := p'; rest := r |}.
+Proof.
+  intros f p x r Hx Hr. cbn [Nat.add]. rule "Enumerator"%string.
+  destruct (IDENT_ok f p x r Hx Hr) as [p' E]. unfold IDENT in E. rewrite E. exists p'. reflexivity.
+Qed.
+
+Lemma comma_enumerator_ok : forall f p x r, is_ident x = true -> boundary r ->
+  exists p', interp g (5 + f) COMMA_ENUMERATOR {| pk := p; rest := sp comma_tok (sp x r) |}
+             = Match [(["enumerator"%string], enumerator_value x)] {| pk := p'; rest := r |}.
+Proof.
+  intros f p x r Hx Hr. cbn [Nat.add]. unfold COMMA_ENUMERATOR. rewrite i_and, seq_cons, i_sup.
+  destruct (lit1_at (S (S f)) p ","%char (sp x r) eq_refl) as [p1 E1]. change (sp [","%char] (sp x r)) with (sp comma_tok (sp x r)) in E1.
+  rewrite E1. cbn [app]. rewrite seq_cons, i_name.
+  destruct (enumerator_ok f p1 x r Hx Hr) as [p2 E2]. cbn [Nat.add] in E2. rewrite E2. cbn [map add_name fst snd]. rewrite seq_nil.
+  exists p2. reflexivity.
+Qed.
+Lemma comma_enumerator_stops : forall f p R, interp g (3 + f) COMMA_ENUMERATOR {| pk := p; rest := sp rbrace R |} = Fail.
+Proof.
+  intros f p R. cbn [Nat.add]. unfold COMMA_ENUMERATOR. rewrite i_and, seq_cons, i_sup. change (sp rbrace R) with (sp ["}"%char] R).
+  rewrite (lit1_other f p ","%char "}"%char [] R eq_refl eq_refl). reflexivity.
+Qed.
+
+Lemma enumerators_tail : forall items, Forall (fun x => is_ident x = true) items ->
+  forall F k acc p R, length items < k -> 5 <= F ->
+  exists p', star (interp g F) k COMMA_ENUMERATOR acc
+                  {| pk := p; rest := render (more_toks (map (fun x => [x]) items)) (sp rbrace R) |}
+             = Match (acc ++ map (fun x => (["enumerator"%string], enumerator_value x)) items) {| pk := p'; rest := sp rbrace R |}.
+Proof.
+  induction items as [|x items IH]; intros H F k acc p R Hk HF.
+  - destruct k as [|k]; [cbn in Hk; lia|]. cbn [map more_toks flat_map render fold_right]. rewrite star_S.
+    replace F with (3 + (F - 3)) by lia. rewrite comma_enumerator_stops, app_nil_r. exists p. reflexivity.
+  - destruct k as [|k]; [cbn in Hk; lia|]. inversion H as [|? ? Hx Hrest]; subst.
+    cbn [map]. change (render (more_toks ([x] :: map (fun x => [x]) items)) (sp rbrace R))
+      with (sp comma_tok (sp x (render (more_toks (map (fun x => [x]) items)) (sp rbrace R)))).
+    set (TAIL := render (more_toks (map (fun x => [x]) items)) (sp rbrace R)).
+    assert (Bt : boundary TAIL) by (unfold TAIL; destruct items; right; eexists; reflexivity).
+    rewrite star_S.
+    destruct (comma_enumerator_ok (F - 5) p x TAIL Hx Bt) as [p2 E2]. replace (5 + (F - 5)) with F in E2 by lia. rewrite E2.
+    destruct (IH Hrest F k (acc ++ [(["enumerator"%string], enumerator_value x)]) p2 R ltac:(cbn [length] in Hk; lia) HF) as [p3 E3].
+    fold TAIL in E3. rewrite E3. exists p3. rewrite <- app_assoc. reflexivity.
+Qed.
+
+Definition kw3 : gexpr := GOr [GOr [GTerm (TKw "enum"); GTerm (TKw "enum class")]; GTerm (TKw "enum struct")].
+
+Lemma kw3_ok : forall f p n r, word n -> boundary r -> n <> chars_of "class" -> n <> chars_of "struct" ->
+  exists p', interp g (3 + f) kw3 {| pk := p; rest := sp kenum (sp n r) |} = Match [([], VStr "enum")] {| pk := p'; rest := sp n r |}.
+Proof.
+  intros f p n r Hn Hr H1 H2. cbn [Nat.add]. unfold kw3.
+  assert (Bd : boundary (sp n r)) by (right; eexists; reflexivity).
+  destruct (kw_self p "e"%char (chars_of "num") (sp n r) eq_refl Bd) as [p1 E1].
+  change (string_of ("e"%char :: chars_of "num")) with "enum"%string in E1.
+  change (sp ("e"%char :: chars_of "num") (sp n r)) with (sp kenum (sp n r)) in E1.
+  exists p1. apply or2_l.
+  - apply or2_l; [rewrite i_term; exact E1|]. rewrite i_term.
+    apply (two_word_fails p "class" n r Hn Hr H1). vm_compute. intuition discriminate.
+  - rewrite i_term. apply (two_word_fails p "struct" n r Hn Hr H2). vm_compute. intuition discriminate.
+Qed.
+
+Lemma enum_ok : forall name x items f p R, is_ident name = true -> name <> chars_of "class" -> name <> chars_of "struct" ->
+  is_ident x = true -> Forall (fun y => is_ident y = true) items ->
+  exists p', interp g (13 + length items + f) (GRef "Enum")
+                    {| pk := p; rest := render ([kenum; name; lbrace] ++ sep_toks (map (fun y => [y]) (x :: items)) ++ [rbrace; semi]) R |}
+             = Match [([], enum_value name (x :: items))] {| pk := p'; rest := R |}.
+Proof.
+  intros name x items f p R Hn H1 H2 Hx Hi. set (n := length items).
+  change (13 + n + f) with (Sn 13 (n + f)). cbn [Sn]. rule "Enum"%string.
+  rewrite i_and, seq_cons, i_and, seq_cons, i_and, seq_cons, i_and, seq_cons, i_and, seq_cons.
+  cbn [map]. rewrite sep_toks_cons. cbn [app render fold_right].
+  set (TAIL2 := sp semi R). set (MORE := render (more_toks (map (fun y => [y]) items)) (sp rbrace TAIL2)).
+  assert (EM : fold_right sp R (more_toks (map (fun y : chars => [y]) items) ++ [rbrace; semi]) = MORE).
+  { unfold MORE, TAIL2. fold (render (more_toks (map (fun y : chars => [y]) items) ++ [rbrace; semi]) R). rewrite render_app. reflexivity. }
+  rewrite EM. clear EM.
+  change (sp kenum (sp name (sp lbrace (sp x MORE)))) with (sp kenum (sp name (sp lbrace (sp x MORE)))).
+  (* the keyword *)
+  assert (Bl : boundary (sp lbrace (sp x MORE))) by (right; eexists; reflexivity).
+  destruct (kw3_ok (Sn 4 (n + f)) p name (sp lbrace (sp x MORE)) (ident_word name Hn) Bl H1 H2) as [p1 E1]. cbn [Sn Nat.add] in E1.
+  unfold kw3 in E1. rewrite E1. cbn [app]. rewrite seq_cons, i_name.
+  destruct (IDENT_ok (Sn 4 (n + f)) p1 name (sp lbrace (sp x MORE)) Hn Bl) as [p2 E2]. cbn [Sn] in E2. unfold IDENT in E2. rewrite E2.
+  cbn [map add_name fst snd]. rewrite seq_nil. cbn [app]. rewrite seq_cons, i_sup.
+  destruct (lit1_at (Sn 6 (n + f)) p2 "{"%char (sp x MORE) eq_refl) as [p3 E3]. cbn [Sn] in E3. change (sp ["{"%char] (sp x MORE)) with (sp lbrace (sp x MORE)) in E3.
+  rewrite E3, seq_nil. cbn [app]. rewrite seq_cons, i_name, i_and, seq_cons, i_name.
+  assert (Bm : boundary MORE) by (unfold MORE; destruct items; right; eexists; reflexivity).
+  destruct (enumerator_ok (Sn 3 (n + f)) p3 x MORE Hx Bm) as [p4 E4]. cbn [Sn Nat.add] in E4. rewrite E4.
+  cbn [map add_name fst snd app]. rewrite seq_cons, i_star.
+  fold COMMA_ENUMERATOR.
+  destruct (enumerators_tail items Hi (Sn 6 (n + f)) (Sn 6 (n + f)) [] p4 TAIL2 ltac:(cbn [Sn]; unfold n; lia) ltac:(cbn [Sn]; lia))
+    as [p5 E5]. cbn [Sn] in E5. fold MORE in E5. rewrite E5, seq_nil. cbn [app].
+  rewrite seq_nil. cbn [app]. rewrite seq_cons, i_sup.
+  destruct (lit1_at (Sn 8 (n + f)) p5 "}"%char TAIL2 eq_refl) as [p6 E6]. cbn [Sn] in E6. change (sp ["}"%char] TAIL2) with (sp rbrace TAIL2) in E6.
+  rewrite E6, seq_nil. cbn [app]. rewrite seq_cons, i_sup. unfold TAIL2.
+  destruct (lit1_at (Sn 9 (n + f)) p6 ";"%char R eq_refl) as [p7 E7]. cbn [Sn] in E7. change (sp [";"%char] R) with (sp semi R) in E7.
+  rewrite E7, seq_nil. cbn [app]. exists p7. unfold enum_value. rewrite ?app_nil_r. cbn [map add_name fst snd app]. rewrite map_map. reflexivity.
+Qed.
+
+Lemma fwd_fails2 : forall p h r f, word h -> boundary r -> h <> kvirtual -> h <> kclass ->
+  interp g (9 + f) (GRef "ForwardDeclaration") {| pk := p; rest := sp h r |} = Fail.
+Proof.
+  intros p h r f Hw B H1 H2. cbn [Nat.add]. rule "ForwardDeclaration"%string.
+  rewrite i_and, seq_cons, i_and, seq_cons, i_and, seq_cons, i_and, seq_cons, i_opt, i_name.
+  rewrite (kw_word_fail _ p "virtual" h r Hw B (safe_nospace _ _ no_blank_virtual)) by (intros E; apply H1; symmetry; exact E).
+  rewrite seq_cons.
+  assert (Nb : ~ In " "%char (chars_of "class")) by noblank.
+  rewrite (kw_word_fail _ p "class" h r Hw B (safe_nospace _ _ Nb)) by (intros E; apply H2; symmetry; exact E). reflexivity.
+Qed.
+Lemma class_fails2 : forall p h r f, word h -> boundary r -> h <> ktemplate -> h <> kvirtual -> h <> kclass ->
+  interp g (18 + f) (GRef "Class") {| pk := p; rest := sp h r |} = Fail.
+Proof.
+  intros p h r f Hw B H0 H1 H2. cbn [Nat.add]. rule "Class"%string.
+  rewrite i_and, seq_cons, i_and, seq_cons, i_and, seq_cons, i_and, seq_cons, i_and, seq_cons, i_and, seq_cons, i_and, seq_cons,
+          i_and, seq_cons.
+  pose proof (template_opt_none (2 + f) p h r Hw B H0) as T. unfold TEMPLATE_OPT in T. cbn [Nat.add] in T. rewrite T. clear T.
+  rewrite seq_cons, i_opt, i_name.
+  rewrite (kw_word_fail _ p "virtual" h r Hw B (safe_nospace _ _ no_blank_virtual)) by (intros E; apply H1; symmetry; exact E).
+  cbn [app]. rewrite ?seq_nil. cbn [app]. rewrite ?seq_cons.
+  assert (Nb : ~ In " "%char (chars_of "class")) by noblank.
+  rewrite (kw_word_fail _ p "class" h r Hw B (safe_nospace _ _ Nb)) by (intros E; apply H2; symmetry; exact E). reflexivity.
+Qed.
+
+Lemma enum_parses : parses 13 [kenum] (ty_value (kw_type "enum")).
+Proof. apply kw_parses; [reflexivity | vm_compute; intuition discriminate]. Qed.
+
+Definition enum_decl (name : string) (items : list string) : decl := DEnum {| e_name := name; e_items := items |}.
+
+Lemma named_enumerators : forall items,
+  named "enumerators" (map (fun x => (["enumerators"; "enumerator"]%string, enumerator_value x)) items) = map enumerator_value items.
+Proof. induction items as [|x items IH]; [reflexivity|]. unfold named in *. cbn. f_equal. exact IH. Qed.
+
+Lemma b_decl_enum : forall k name items,
+  b_decl (S k) (enum_value name items) = Ok (enum_decl (string_of name) (map string_of items)).
+Proof.
+  intros k name items. unfold enum_value. cbn [b_decl].
+  repeat match goal with |- context [String.eqb ?a ?b] =>
+    let x := eval vm_compute in (String.eqb a b) in change (String.eqb a b) with x end.
+  cbv iota. unfold b_enum, name_of, first_named. rewrite !named_app, named_enumerators.
+  change (named "name" [([], VStr "enum"); (["name"%string], VStr (string_of name))]) with [VStr (string_of name)].
+  change (named "enumerators" [([], VStr "enum"); (["name"%string], VStr (string_of name))]) with (@nil value).
+  cbn [app hd_error bind].
+  assert (M : mapM (fun e => match e with
+                             | VNode _ eits => match strs eits with [x] => Ok x | _ => bad "enumerator" end
+                             | _ => bad "enumerator" end) (map enumerator_value items) = Ok (map string_of items)).
+  { induction items as [|x items IH]; [reflexivity|]. cbn [map mapM enumerator_value strs flat_map snd app bind]. rewrite IH. reflexivity. }
+  rewrite M. reflexivity.
+Qed.
+
+Definition wf_enum (name : string) (items : list string) : Prop :=
+  is_ident (chars_of name) = true /\ chars_of name <> chars_of "class" /\ chars_of name <> chars_of "struct" /\
+  items <> [] /\ Forall (fun y => is_ident (chars_of y) = true) items.
+
+Lemma content_step_enum : forall name items, wf_enum name items -> forall p R f, 40 + length items <= f ->
+  exists v p', interp g f OR7 {| pk := p; rest := render (enum_toks name items) R |} = Match [([], v)] {| pk := p'; rest := R |}
+               /\ forall k, b_decl (S k) v = Ok (enum_decl name items).
+Proof.
+  intros name items [Hn [H1 [H2 [Hne Hi]]]] p R f Hf. destruct items as [|x items]; [contradiction|].
+  inversion Hi as [|? ? Hx Hrest]; subst.
+  assert (Hrest' : Forall (fun y => is_ident y = true) (map chars_of items)).
+  { apply Forall_forall. intros y Hy. apply in_map_iff in Hy. destruct Hy as [z [E Hz]]. subst y. rewrite Forall_forall in Hrest. apply Hrest. exact Hz. }
+  cbn [length] in Hf. set (n := length items) in *.
+  assert (X : exists z, f = Sn 7 (30 + n + z)) by (exists (f - 37 - n); cbn [Sn]; lia). destruct X as [z Ef]. subst f. cbn [Sn].
+  unfold enum_toks.
+  replace (map (fun y : string => [chars_of y]) (x :: items)) with (map (fun y => [y]) (chars_of x :: map chars_of items))
+    by (cbn [map]; rewrite map_map; reflexivity).
+  destruct (enum_ok (chars_of name) (chars_of x) (map chars_of items) (21 + z) p R Hn H1 H2 Hx Hrest') as [p' E].
+  rewrite map_length in E. fold n in E.
+  exists (enum_value (chars_of name) (chars_of x :: map chars_of items)), p'. split.
+  2:{ intros k. rewrite b_decl_enum. rewrite string_chars. cbn [map]. rewrite string_chars, map_string_chars. reflexivity. }
+  set (TXT := render ([kenum; chars_of name; lbrace] ++ sep_toks (map (fun y => [y]) (chars_of x :: map chars_of items)) ++ [rbrace; semi]) R) in *.
+  set (AFTER := render ([lbrace] ++ sep_toks (map (fun y => [y]) (chars_of x :: map chars_of items)) ++ [rbrace; semi]) R).
+  assert (ET : TXT = sp kenum (sp (chars_of name) AFTER)) by reflexivity.
+  assert (EA : AFTER = sp ("{"%char :: []) (render (sep_toks (map (fun y => [y]) (chars_of x :: map chars_of items)) ++ [rbrace; semi]) R)) by reflexivity.
+  assert (We : word kenum) by (split; [discriminate | reflexivity]).
+  assert (Bd : boundary (sp (chars_of name) AFTER)) by (right; eexists; reflexivity).
+  rewrite ET in *.
+  unfold OR7. apply or2_l; [|apply (namespace_fails p kenum _ We Bd (29 + n + z)); discriminate].
+  unfold OR6. apply or2_l.
+  2:{ rewrite EA. apply (variable_fails 13 [kenum] (ty_value (kw_type "enum")) (chars_of name) "{"%char [] _ enum_parses Hn eq_refl eq_refl eq_refl (27 + n + z) p). lia. }
+  assert (EQ : 13 + n + (21 + z) = S (S (S (S (30 + n + z))))) by lia. rewrite EQ in E.
+  unfold OR5. rewrite or2_r; [exact E|].
+  unfold OR4. rewrite or2_r.
+  { rewrite EA. apply (function_fails 13 [kenum] (ty_value (kw_type "enum")) (chars_of name) "{"%char [] _ enum_parses
+                         (wf_head_kw kenum We ltac:(discriminate) ltac:(discriminate)) Hn eq_refl eq_refl (13 + n + z) p). lia. }
+  unfold OR3. rewrite or2_r; [apply (typedef_fails2 p kenum _ (26 + n + z) We Bd); discriminate|].
+  unfold OR2. rewrite or2_r; [apply (class_fails2 p kenum _ (13 + n + z) We Bd); discriminate|].
+  unfold OR1. rewrite or2_r; [apply (include_fails2 p kenum _ (24 + n + z) We Bd)|].
+  apply (fwd_fails2 p kenum _ (21 + n + z) We Bd); discriminate.
+Qed.
+
+(* ---- where a run of declarations stops: at the end of the text, or at the closing brace of a namespace ---- *)
 
 Lemma ty_fails_at_rbrace : forall f p X, interp g (12 + f) TY {| pk := p; rest := sp rbrace X |} = Fail.
 Proof.
@@ -874,6 +1094,7 @@ Inductive item : Type :=
 | IVar (t : ty) (name : string)
 | IFwd (virt : bool) (name : string)
 | IInc (header : string)
+| IEnum (name : string) (enumerators : list string)
 | INs (name : string) (body : list item).
 
 Fixpoint itoks (i : item) : list chars :=
@@ -882,6 +1103,7 @@ Fixpoint itoks (i : item) : list chars :=
   | IVar t n => var_toks t n
   | IFwd v n => fwd_toks v n
   | IInc h => inc_toks h
+  | IEnum n l => enum_toks n l
   | INs n b => [knamespace; chars_of n; lbrace] ++ flat_map itoks b ++ [rbrace]
   end.
 Definition items_toks (l : list item) : list chars := flat_map itoks l.
@@ -891,16 +1113,18 @@ Fixpoint idecl (i : item) : decl :=
   | IVar t n => DVar {| v_ty := t; v_name := n; v_default := None |}
   | IFwd v n => fwd_decl v n
   | IInc h => DInclude h
+  | IEnum n l => enum_decl n l
   | INs n b => DNamespace n (map idecl b)
   end.
 Fixpoint idepth (i : item) : nat :=
-  match i with IFn _ => 0 | IVar _ _ => 0 | IFwd _ _ => 0 | IInc _ => 0 | INs _ b => S (fold_right (fun x acc => Nat.max (idepth x) acc) 0 b) end.
+  match i with IFn _ => 0 | IVar _ _ => 0 | IFwd _ _ => 0 | IInc _ => 0 | IEnum _ _ => 0 | INs _ b => S (fold_right (fun x acc => Nat.max (idepth x) acc) 0 b) end.
 Fixpoint wf_item (i : item) : Prop :=
   match i with
   | IFn x => wf_fn x
   | IVar t n => wf_var t n
   | IFwd _ n => is_ident (chars_of n) = true
   | IInc h => path_ok_c (chars_of h)
+  | IEnum n l => wf_enum n l
   | INs n b => is_ident (chars_of n) = true /\ (fix all (l : list item) : Prop := match l with [] => True | x :: r => wf_item x /\ all r end) b
   end.
 Fixpoint need (i : item) : nat :=
@@ -909,6 +1133,7 @@ Fixpoint need (i : item) : nat :=
   | IVar t _ => fuel_of t + 25
   | IFwd _ _ => 40
   | IInc _ => 40
+  | IEnum _ l => 40 + length l
   | INs _ b => 37 + length b + fold_right (fun x acc => need x + acc) 0 b
   end.
 Definition needs (l : list item) : nat := 31 + length l + fold_right (fun x acc => need x + acc) 0 l.
@@ -956,7 +1181,7 @@ Proof.
       set (REST := render (items_toks items) R) in *.
       assert (Step : exists v p1, interp g F OR7 {| pk := p; rest := render (itoks i) REST |} = Match [([], v)] {| pk := p1; rest := REST |}
                                   /\ forall bf, S n <= bf -> b_decl bf v = Ok (idecl i)).
-      { destruct i as [x|t nm|vt nm|hd|nm b].
+      { destruct i as [x|t nm|vt nm|hd|en el|nm b].
         - cbn [wf_item itoks idecl need] in *. destruct (content_step x Hwi p REST F ltac:(lia)) as [v [p1 [E B]]].
           exists v, p1. split; [exact E|]. intros bf Hbf. destruct bf as [|bf]; [lia|]. apply B.
         - cbn [wf_item itoks idecl need] in *. destruct (content_step_var t nm Hwi p REST F ltac:(lia)) as [v [p1 [E B]]].
@@ -964,6 +1189,8 @@ Proof.
         - cbn [wf_item itoks idecl need] in *. destruct (content_step_fwd vt nm Hwi p REST F ltac:(lia)) as [v [p1 [E B]]].
           exists v, p1. split; [exact E|]. intros bf Hbf. destruct bf as [|bf]; [lia|]. apply B.
         - cbn [wf_item itoks idecl need] in *. destruct (content_step_inc hd Hwi p REST F ltac:(lia)) as [v [p1 [E B]]].
+          exists v, p1. split; [exact E|]. intros bf Hbf. destruct bf as [|bf]; [lia|]. apply B.
+        - cbn [wf_item itoks idecl need] in *. destruct (content_step_enum en el Hwi p REST F ltac:(lia)) as [v [p1 [E B]]].
           exists v, p1. split; [exact E|]. intros bf Hbf. destruct bf as [|bf]; [lia|]. apply B.
         - cbn [wf_item itoks idecl need idepth] in *. destruct Hwi as [Hnm Hall].
           assert (Hb : forall j, In j b -> idepth j < n /\ wf_item j).
@@ -1126,7 +1353,7 @@ Qed.
 
 Lemma item_facts : forall n i, idepth i < n -> wf_item i -> Forall tok_ok (itoks i) /\ need i + 1 <= 32 * length (itoks i).
 Proof.
-  induction n as [|n IH]; intros i Hd Hw; [lia|]. destruct i as [x|t nm|vt nm|hd|nm b].
+  induction n as [|n IH]; intros i Hd Hw; [lia|]. destruct i as [x|t nm|vt nm|hd|en el|nm b].
   - cbn [wf_item itoks need] in *. destruct (fn_facts x Hw) as [F1 [F2 F3]]. split; [exact F1 | lia].
   - cbn [wf_item itoks need] in *. destruct Hw as [Hw [Hdt [_ Hn]]]. destruct (ty_facts _ _ Hdt Hw) as [T1 T2]. unfold var_toks. split.
     + apply Forall_app. split; [exact T1|]. constructor; [apply ident_tok; exact Hn | tok_lit].
@@ -1138,6 +1365,15 @@ Proof.
     + constructor; [tok_lit|]. constructor; [|constructor]. unfold inc_tok, tok_ok. constructor; [vm_compute; discriminate|].
       apply Forall_app. split; [exact Hnt | tok_lit].
     + cbn [length]. lia.
+  - cbn [wf_item itoks need] in *. destruct Hw as [Hn [_ [_ [Hne Hi]]]]. destruct el as [|x el]; [contradiction|].
+    inversion Hi as [|? ? Hx Hrest]; subst. unfold enum_toks. cbn [map]. rewrite sep_toks_cons. split.
+    + constructor; [tok_lit|]. constructor; [apply ident_tok; exact Hn|]. constructor; [tok_lit|].
+      apply Forall_app. split; [|tok_lit]. apply Forall_app. split; [constructor; [apply ident_tok; exact Hx | constructor]|].
+      apply more_tok. apply Forall_forall. intros l Hl. apply in_map_iff in Hl. destruct Hl as [y [E Hy]]. subst l.
+      constructor; [|constructor]. apply ident_tok. rewrite Forall_forall in Hrest. apply Hrest. exact Hy.
+    + assert (L : length (more_toks (map (fun y : string => [chars_of y]) el)) = 2 * length el).
+      { clear. induction el as [|y el IH]; [reflexivity|]. cbn [map]. rewrite more_toks_cons. cbn [length app]. rewrite IH. lia. }
+      cbn [length app]. rewrite !app_length. cbn [length]. rewrite L. lia.
   - cbn [wf_item itoks need idepth] in *. destruct Hw as [Hnm Hall].
     assert (Hb : forall j, In j b -> Forall tok_ok (itoks j) /\ need j + 1 <= 32 * length (itoks j)).
     { intros j Hj. apply IH; [pose proof (idepth_ge b j Hj); lia | apply (wf_items_all b Hall j Hj)]. }
